@@ -138,8 +138,11 @@ def to_dict(desc, order=None):
         items.append((key, val))
     for name, node in desc.get('names', {}).items():
         bk = desc['books'][node[1]]['name']
-        items.append(("'[%s]'!%s" % (bk, name.upper()),
-                      '=' + ref_text(desc, node, None, full=True)))
+        if node[0] == 'val':
+            txt = formula_text(desc, node[2], None, full=True)
+        else:
+            txt = ref_text(desc, node, None, full=True)
+        items.append(("'[%s]'!%s" % (bk, name.upper()), '=' + txt))
     if order is not None:
         items = order(items)
     return dict(items)
@@ -173,8 +176,10 @@ def write_xlsx(desc, dirpath, sheet_order=None):
         for name, node in desc.get('names', {}).items():
             if node[1] != b:
                 continue
-            sh = bk['sheets'][node[2]]['name']
-            txt = ref_text(desc, _abs(node), (b, -1))
+            if node[0] == 'val':
+                txt = formula_text(desc, node[2], (b, -1))
+            else:
+                txt = ref_text(desc, _abs(node), (b, -1))
             wb.defined_names[name] = DefinedName(name, attr_text=txt)
         path = os.path.join(dirpath, bk['name'])
         os.makedirs(os.path.dirname(path), exist_ok=True)
@@ -190,7 +195,7 @@ def _abs(node):
 # ---------------------------------------------------------------------------
 
 def gen(rng, n_books=None, n_formulas=None, forms=None, whole_col=False,
-        kinds='nntbe', err=None):
+        kinds='nntbe', err=None, value_names=True):
     """Random acyclic workbook description."""
     n_books = n_books or rng.choice((1, 1, 2))
     err = err or rng.choice(('#N/A', '#DIV/0!', '#VALUE!'))
@@ -265,7 +270,8 @@ def gen(rng, n_books=None, n_formulas=None, forms=None, whole_col=False,
                 return ['lit', float(rng.randint(0, 12))]
             if desc['names'] and rng.random() < 0.2:
                 nm = rng.choice(sorted(desc['names']))
-                if desc['names'][nm][0] == 'cell' and desc['names'][nm][1] == cur['b']:
+                if desc['names'][nm][0] in ('cell', 'val') and \
+                        desc['names'][nm][1] == cur['b']:
                     return ['name', nm]
             return a_cell()
         if t < 0.5:
@@ -301,7 +307,16 @@ def gen(rng, n_books=None, n_formulas=None, forms=None, whole_col=False,
     # defined names: cells and rectangles of constants zones
     for i in range(rng.randint(0, 3)):
         nm = rng.choice(('RATE', 'Total_1', 'myName', 'x.y', 'LIMIT'))
-        if rng.random() < 0.5 and const_cells:
+        if rng.random() < 0.3 and const_cells and value_names:
+            b = rng.randrange(len(desc['books']))
+            if rng.random() < 0.5:
+                desc['names'][nm] = ['val', b, ['lit', float(rng.randint(1, 9))]]
+            else:
+                cc = rng.choice([c for c in const_cells if c[0] == b] or const_cells)
+                desc['names'][nm] = ['val', cc[0], [
+                    'bin', rng.choice('*+'), ['cell'] + list(cc),
+                    ['lit', float(rng.randint(2, 5))]]]
+        elif rng.random() < 0.5 and const_cells:
             b, s, c, r = rng.choice(const_cells)
             desc['names'][nm] = ['cell', b, s, c, r]
         else:
